@@ -1486,7 +1486,7 @@ func runP2P3(p *Prog, r *Report) {
 				}
 				nIdx++
 				construct := exprStr(e)
-				if ex, ok := idxExceptions[fn.Name+"|"+construct]; ok {
+				if ex, ok := lookupIdxException(fn, construct); ok {
 					if ex.premise == nil || ex.premise(fn, e) {
 						r.Add("E4.P2-index", fn.Name, construct, p.Pos(e), Excepted, ex.why, true)
 						return true
@@ -1510,7 +1510,7 @@ func runP2P3(p *Prog, r *Report) {
 			case *ast.SliceExpr:
 				nSlc++
 				construct := exprStr(e)
-				if ex, ok := idxExceptions[fn.Name+"|"+construct]; ok {
+				if ex, ok := lookupIdxException(fn, construct); ok {
 					r.Add("E4.P3-slice", fn.Name, construct, p.Pos(e), Excepted, ex.why, true)
 					return true
 				}
@@ -1612,6 +1612,30 @@ func (ip *idxProver) indexedFill(fn *Func, e *ast.IndexExpr) bool {
 type idxException struct {
 	why     string
 	premise func(fn *Func, e *ast.IndexExpr) bool
+}
+
+// lookupIdxException: the reviewed exception for this construct in this function, or — when
+// the code was moved into a helper — the exception of a function that reaches this one through
+// static calls and was reviewed for the same construct (up to local names). The premise is
+// re-evaluated at the new site either way.
+func lookupIdxException(fn *Func, construct string) (idxException, bool) {
+	if ex, ok := idxExceptions[fn.Name+"|"+construct]; ok {
+		return ex, true
+	}
+	for k, ex := range idxExceptions {
+		i := strings.Index(k, "|")
+		if i < 0 || loosen(k[i+1:]) != loosen(construct) {
+			continue
+		}
+		from := fn.Prog.FindFunc(k[:i])
+		if from == nil {
+			continue
+		}
+		if _, reach := helperClosure(fn.Prog, []*Func{rootOf(from)}, 3)[rootOf(fn)]; reach {
+			return ex, true
+		}
+	}
+	return idxException{}, false
 }
 
 // idxExceptions: reviewed, one construct each (function|expression).
